@@ -93,7 +93,7 @@ class P:
             cases.append(X.case(["sh"], 0, {"IFS": None}, 0, [X.Q('"', pe)] if quoted else [pe]))
         # $@ and $*
         at = []
-        for name, quoted, n, ifs, nounset in itertools.product("@*", (False, True), range(0, 4), IFSS + [":x"], (False, True)):
+        for name, quoted, n, ifs, nounset in itertools.product("@*", (False, True), range(0, 4), IFSS + [":x", b"\xff,", b"\x80:", b"\xc3", "\ufffd,", b"\xe3\x81z"], (False, True)):
             for vals in (["a", "b c", ""], ["", "x", "y"], ["日", "q", "r"], ["xa", "xbx", "cx"]):
                 args = ["sh"] + vals[:n]
                 for pe in (X.P(name), X.P(name, "#", None), X.P(name, ":-", [X.L("d")]), X.P(name, "+", [X.L("alt")]),
@@ -118,7 +118,7 @@ class P:
                 parts = [X.Q('"', *parts)]
             if rnd.random() < 0.3:
                 parts = [X.L(rnd.choice(["pre", "~", "a:~"]))] + parts + [X.L(rnd.choice(["post", ""]))]
-            vs = {"IFS": rnd.choice(IFSS + [":"]), "v": rnd.choice(VALUES + ["", None]), "other": rnd.choice(["O o", "", None]), "n": rnd.choice(["41", "x", None]),
+            vs = {"IFS": rnd.choice(IFSS + [":", b"\xff,", b"\x80"]), "v": rnd.choice(VALUES + ["", None]), "other": rnd.choice(["O o", "", None]), "n": rnd.choice(["41", "x", None]),
                   "HOME": rnd.choice(["/home/me", None, ""])}
             args = ["sh"] + [rnd.choice(VALUES + [""]) for _ in range(rnd.randint(0, 3))]
             rc.append(X.case(args, rnd.choice([X.NOGLOB, X.NOGLOB | X.NOUNSET]), vs, rnd.choice([0, 0, 0, 4, 8, 16, 2, 1]), parts))
